@@ -66,6 +66,15 @@ Theorem c04_remaining_spec : forall log b x,
 Proof. exact remaining_spec. Qed.
 Print Assumptions c04_remaining_spec.
 
+(* canceled => some blocker is in the failed set accumulated over all iterations; the converse holds only when
+   every name is reported at most once (C08/C01): witness of the failing converse below *)
+Theorem c04_cancels_sound : forall log b, cancels b log = true -> meets b (all_failed log) = true.
+Proof. exact cancels_sound. Qed.
+Print Assumptions c04_cancels_sound.
+Theorem c04_cancels_accumulated_converse_refuted : exists b log, meets b (all_failed log) = true /\ cancels b log = false.
+Proof. exact cancels_refuted_converse. Qed.
+Print Assumptions c04_cancels_accumulated_converse_refuted.
+
 (* ---- (2) node level ---- *)
 Theorem c04_check_completions_terminates : forall fin out queued, check_completions fin out queued <> None.
 Proof. exact check_completions_terminates. Qed.
